@@ -214,6 +214,7 @@ class SlavePort(core_ports.BasePort):
                 self.debug('marking attribute %s for provisioning', name)
                 self._provisioning.add(name)
                 self._cached_attrs[name] = value
+                self.invalidate_attr('provisioning')
 
                 await self.trigger_update()
 
@@ -301,6 +302,7 @@ class SlavePort(core_ports.BasePort):
 
     def clear_provisioning(self) -> None:
         self._provisioning = set()
+        self.invalidate_attr('provisioning')
 
     def push_remote_value(self, value: NullablePortValue) -> None:
         self._remote_value_queue.appendleft(value)
@@ -349,6 +351,7 @@ class SlavePort(core_ports.BasePort):
             self.debug('marking value for provisioning')
             self._cached_value = value
             self._provisioning.add('value')
+            self.invalidate_attr('provisioning')
             await self.save()  # save provisioning value
 
             # We need to trigger a port-update because our provisioning attribute has changed
